@@ -8,6 +8,7 @@ from eqsig import sdof
 from pbt import gen
 from pbt.core import clause, HarnessError
 from pbt.ref import sdof as ref
+from pbt.ref import sdof_mid as mid
 
 PROPERTY = "C01"
 CLAUSES = []
@@ -18,7 +19,18 @@ ASSUMPTIONS = [
     "'relative to the series peak' is read with a floor: peak of the exact series, but not less than the response to one "
     "step of the largest sample, max|a|*min(dt^2/2, 1/w^2) (displacement) and max|a|*min(dt, 1/w) (velocity); without "
     "the floor the bound is unattainable by any floating-point code when the true series cancels to ~0",
-    "domain: n 2..3000, dt in [1e-4, 3], 0.2 <= T/dt <= 2e4, optional single leading T=0, 0 <= xi < 1, |a| <= 1e9",
+    "domain: n 2..3000, dt in [1e-7, 3] (one case in five below 1e-4), 0.2 <= T/dt <= 2e4, optional single leading T=0 (also the list "
+    "[0] alone), 0 <= xi < 1, |a| <= 2.2e9; records as float64 ndarray / strided / read-only views, python lists, tuples, int64, "
+    "full-range int8 / int16 / int32 (most negative value included), uint8 / uint16 and python-int lists - the oracle is evaluated at "
+    "the exact values held by the container; float32 records are not generated (handled centrally); dt as python float, "
+    "np.float64, np.float32 or a 0-d array (the oracle uses the exact value of the argument)",
+    "what the velocity bound claims for T < dt: the one-step floor max|a|*min(dt, 1/w) can exceed the true velocity peak by up to "
+    "w*dt/2 (16 at T = 0.2 dt) on smooth or alternating records, so for such rows the clause proves the velocity to tol of the "
+    "floor, not to tol of the (smaller) true peak; no tighter claim is made because no floating-point code can meet one there",
+    "purity of the arguments is not claimed by C01 (C05 does) and is not asserted",
+    "rows of the positive periods with vs without the leading 0 are compared to (1e-10 + 16 eps n) of the energy-consistent robust "
+    "scale, not bit for bit (the statement does not promise identical bits; vectorised exp / sin / cos may differ in the last bit "
+    "between array lengths)",
 ]
 EPS = np.finfo(float).eps
 LD = np.longdouble
@@ -51,6 +63,8 @@ _validate_reference()
 def _cases(draw, max_n=3000, max_p=6, lead0=None):
     spec = draw(gen.record_specs(min_n=2, max_n=max_n, allow_int=["view", "negstride", "readonly"]))
     dt = draw(gen.dts(1e-4, 3.0))
+    if draw(st.integers(0, 4)) == 0:
+        dt = draw(gen.log_uniform(1e-7, 1e-4))   # "all dt > 0": high-rate records (T down to 2e-8 s)
     ratios = draw(gen.period_ratios(0.2, 2e4, 1, max_p))
     case = {"rec": spec, "dt": dt, "ratios": ratios, "xi": draw(gen.xis())}
     if lead0 is None:
@@ -63,7 +77,27 @@ def _cases(draw, max_n=3000, max_p=6, lead0=None):
         case["dt"] = draw(st.sampled_from([1.0, 0.5, 0.25, 0.1]))
         case["int_periods"] = draw(st.lists(st.integers(1, 40), min_size=1, max_size=max_p))
         case["ratios"] = [t / case["dt"] for t in case["int_periods"]]
+    # "every record": integer-typed (int64, full-range int8/16/32, uint8/16), python-int list and tuple containers
+    case["rec_int"] = draw(st.sampled_from(mid.INT_KINDS)) if draw(st.integers(0, 3)) == 0 else None
+    # dt as python float | np.float64 | np.float32 | 0-d array
+    case["dt_as"] = draw(st.sampled_from(mid.DT_KINDS))
+    if case.get("int_periods") and case["dt_as"] in ("f32", "0d32"):
+        case["dt_as"] = "f64"
+    if lead0:
+        case["only0"] = draw(st.integers(0, 5)) == 0    # the period list [0] alone
     return case
+
+
+def _inputs(case):
+    """(exact float64 values of the record, record argument, dt value, dt argument, case with that dt)."""
+    a = gen.build(case["rec"])
+    dt_arg, dt = mid.dt_argument(case["dt"], case.get("dt_as"))
+    c2 = case if dt == case["dt"] else dict(case, dt=dt)
+    if case.get("rec_int"):
+        arg, a = mid.int_record(a, case["rec_int"])
+    else:
+        arg = gen.as_container(case["rec"], a)
+    return a, arg, dt, dt_arg, c2
 
 
 def _periods(case, with_zero=None):
@@ -112,6 +146,12 @@ def _classify(ctx, case, a):
         ctx.cls("int-periods")
     if case.get("container") == "float32":
         ctx.cls("float32-periods")
+    if case.get("rec_int"):
+        ctx.cls("rec=" + case["rec_int"], "rec-integer" if case["rec_int"] != "tuple" else None)
+    if case.get("dt_as"):
+        ctx.cls("dt-as=" + case["dt_as"])
+    if case["dt"] < 1e-4:
+        ctx.cls("dt<1e-4")
 
 
 def _exact_rows(ctx, a, dt, T, xi, ru, rv, ratios):
@@ -155,13 +195,12 @@ def _exact_rows(ctx, a, dt, T, xi, ru, rv, ratios):
         oracle="reference model: long-double expm of the augmented ODE system, bound = statement tolerance on the robust scale",
         require={"T<6dt": 0.1, "T>100dt": 0.1})
 def exact(case, ctx):
-    a = gen.build(case["rec"])
-    dt = case["dt"]
+    a, arg, dt, dt_arg, case = _inputs(case)
     xi = case["xi"]
     _classify(ctx, case, a)
     periods = _periods(case)
-    ru, rv, ra = ctx.lib(sdof.response_series, gen.as_container(case["rec"], a), dt, periods, xi)
-    if case["rec"].get("as"):
+    ru, rv, ra = ctx.lib(sdof.response_series, arg, dt_arg, periods, xi)
+    if case["rec"].get("as") and not case.get("rec_int"):
         ctx.cls("as=" + case["rec"]["as"])
     T = _T64(case)
     s = 1 if case["lead0"] else 0
@@ -171,6 +210,9 @@ def exact(case, ctx):
     ctx.shape(ra, (len(T) + s, n), "response acceleration")
     ctx.finite(ru, "response displacement")
     ctx.finite(rv, "response velocity")
+    if s:   # the T=0 row belongs to every call with a leading 0 (also for integer-typed records: the sign flip is in floating point)
+        ctx.check(not np.any(np.asarray(ru)[0]) and not np.any(np.asarray(rv)[0]), "T=0 row of displacement/velocity is not identically zero")
+        ctx.equal(np.asarray(ra)[0], -a, "T=0 row of the acceleration series vs sign-flipped record")
     ratios = np.array(case["ratios"], dtype=float)
     su, sv, big_u, eu, ev, tol = _exact_rows(ctx, a, dt, T, xi, np.asarray(ru)[s:], np.asarray(rv)[s:], ratios)
     ctx.nt(bool(np.any(a != 0) and np.any(big_u)))
@@ -184,13 +226,12 @@ def exact(case, ctx):
         oracle="reference model: third series == -(2 xi w v + w^2 u) recomputed from the returned u, v with w=2pi/T, "
                "tolerance 1e-8*max(|2 xi w v|+|w^2 u|)")
 def acc_identity(case, ctx):
-    a = gen.build(case["rec"])
-    dt = case["dt"]
+    a, arg, dt, dt_arg, case = _inputs(case)
     xi = case["xi"]
     _classify(ctx, case, a)
     ctx.nt(bool(np.any(a != 0)))
     periods = _periods(case)
-    ru, rv, ra = ctx.lib(sdof.response_series, a, dt, periods, xi)
+    ru, rv, ra = ctx.lib(sdof.response_series, arg, dt_arg, periods, xi)
     s = 1 if case["lead0"] else 0
     T = _T64(case)
     w = (2 * np.pi / T)[:, None]
@@ -203,53 +244,70 @@ def acc_identity(case, ctx):
 
 
 @clause(CLAUSES, "t0-row", _cases(max_n=1500, lead0=True), quick=300, thorough=1500,
-        rule="same generator with a leading period of exactly 0; non-trivial = non-zero record",
-        oracle="reference model (zeros / negated record, bit-for-bit) + differential against the call without the leading 0 (exact)")
+        rule="same generator with a leading period of exactly 0 (one case in six: the list [0] alone); non-trivial = non-zero record",
+        oracle="reference model (zeros / negated record, bit-for-bit; also for the list [0] alone) + differential against the call "
+               "without the leading 0 ((1e-10 + 16 eps n) of the energy-consistent robust scale)")
 def t0_row(case, ctx):
-    a = gen.build(case["rec"])
-    dt = case["dt"]
+    a, arg, dt, dt_arg, case = _inputs(case)
     xi = case["xi"]
     _classify(ctx, case, a)
     ctx.nt(bool(np.any(a != 0)))
+    n = len(a)
+    if case.get("only0"):
+        # the list [0] alone: one row, zero displacement / velocity, sign-flipped record
+        ctx.cls("only-zero-period")
+        zero = 0 if case.get("int_periods") else 0.0
+        P0 = {"list": [zero], "tuple": (zero,)}.get(case.get("container"), np.array([zero]))
+        res = ctx.lib(sdof.response_series, arg, dt_arg, P0, xi)
+        ctx.check(isinstance(res, (tuple, list)) and len(res) == 3, "result for the period list [0] is not a triple")
+        ru, rv, ra = (np.asarray(x) for x in res)
+        for x, name in ((ru, "displacement"), (rv, "velocity"), (ra, "acceleration")):
+            ctx.shape(x, (1, n), "%s for the period list [0]" % name)
+        ctx.check(not np.any(ru) and not np.any(rv), "period list [0]: displacement/velocity not identically zero")
+        ctx.equal(ra[0], -a, "period list [0]: acceleration series vs sign-flipped record")
+        return
     with0 = _periods(case, True)
     without = _periods(case, False)
-    ru, rv, ra = ctx.lib(sdof.response_series, a, dt, with0, xi)
+    ru, rv, ra = ctx.lib(sdof.response_series, arg, dt_arg, with0, xi)
     ru, rv, ra = np.asarray(ru), np.asarray(rv), np.asarray(ra)
-    n = len(a)
     ctx.shape(ru, (len(without) + 1, n), "displacement with leading T=0")
     ctx.check(not np.any(ru[0]) and not np.any(rv[0]), "T=0 row of displacement/velocity is not identically zero")
     ctx.equal(ra[0], -a, "T=0 row of the acceleration series vs sign-flipped record")
-    qu, qv, qa = ctx.lib(sdof.response_series, a, dt, without, xi)
-    ctx.equal(ru[1:], qu, "displacement rows with vs without leading 0")
-    ctx.equal(rv[1:], qv, "velocity rows with vs without leading 0")
-    ctx.equal(ra[1:], qa, "acceleration rows with vs without leading 0")
+    qu, qv, qa = ctx.lib(sdof.response_series, arg, dt_arg, without, xi)
+    # The rows of the positive periods do not depend on the leading 0.  The statement does not make this bit-for-bit (an
+    # implementation may evaluate its closed forms over arrays of different length in the two calls, and vectorised
+    # exp / sin / cos may differ in the last bit between array lengths): rounding model of two equal runs, pbt/ref/sdof_mid.tol_n.
+    T = _T64(case)
+    tol = mid.tol_n(n)
+    for got, want, S, name in zip((ru[1:], rv[1:], ra[1:]), (qu, qv, qa), mid.escales(a, dt, T, xi, np.asarray(qu), np.asarray(qv)),
+                                  ("displacement", "velocity", "acceleration")):
+        ctx.close(got, np.asarray(want), tol * S[:, None] + 0 * got, "%s rows with vs without leading 0" % name)
 
 
 @clause(CLAUSES, "entry-points", _cases(max_n=800), quick=300, thorough=1500,
-        rule="same generator (n <= 800), records passed as ndarray and list; non-trivial = non-zero record",
+        rule="same generator (n <= 800), records passed as ndarray, list, integer-typed arrays and tuples; non-trivial = non-zero record",
         oracle="differential: response_series == nigam_and_jennings_response == AccSignal.response_series (array_equal)")
 def entry_points(case, ctx):
-    a = gen.build(case["rec"])
-    dt = case["dt"]
+    a, arg, dt, dt_arg, case = _inputs(case)
     xi = case["xi"]
     _classify(ctx, case, a)
     ctx.nt(bool(np.any(a != 0)))
     periods = _periods(case)
     r1 = ctx.lib(sdof.response_series, a, dt, periods, xi)
-    r2 = ctx.lib(sdof.nigam_and_jennings_response, gen.as_container(case["rec"], a), dt, periods, xi)
+    r2 = ctx.lib(sdof.nigam_and_jennings_response, arg, dt_arg, periods, xi)
     r3 = ctx.lib(sdof.response_series, [float(x) for x in a], dt, periods, xi)
-    asig = ctx.lib(eqsig.AccSignal, a, dt)
+    asig = ctx.lib(eqsig.AccSignal, arg, dt_arg)
     r4 = ctx.lib(asig.response_series, response_times=periods, xi=xi)
-    a_before = a.copy()
+    # (C01 does not claim that the arguments are left untouched - C05 does; nothing about the caller's arrays is asserted here)
     for k, name in enumerate(("displacement", "velocity", "acceleration")):
         ctx.shape(r1[k], (len(periods), len(a)), name)
         ctx.equal(r2[k], r1[k], "nigam_and_jennings_response vs response_series (%s)" % name)
         ctx.equal(r3[k], r1[k], "list record vs ndarray record (%s)" % name)
         ctx.equal(r4[k], r1[k], "AccSignal.response_series vs response_series (%s)" % name)
-    ctx.equal(a, a_before, "record mutated")
     if xi == 0.05:
         r5 = ctx.lib(asig.response_series, response_times=periods)
-        ctx.equal(r5[0], r1[0], "AccSignal.response_series default xi")
+        for k, name in enumerate(("displacement", "velocity", "acceleration")):
+            ctx.equal(r5[k], r1[k], "AccSignal.response_series default xi (%s)" % name)
 
 
 # ---------------------------------------------------------------------------
@@ -348,7 +406,6 @@ def _check_whole(ctx, a, a_ref, dt, T, s, xi, res, what):
         ctx.shape(x, (len(T) + s, n), "%s: response %s" % (what, name))
     ctx.finite(ru, "%s: response displacement" % what)
     ctx.finite(rv, "%s: response velocity" % what)
-    ctx.equal(np.asarray(a, dtype=float), a_ref, "%s: record mutated" % what)
     if s:
         ctx.check(not np.any(ru[0]) and not np.any(rv[0]), "%s: T=0 row of displacement/velocity is not identically zero" % what)
         ctx.equal(ra[0], -a_ref, "%s: T=0 row of the acceleration series vs sign-flipped record" % what)
@@ -407,6 +464,9 @@ def _mk_long_case(n, entry, idx, k=0, last=False):
                          "n2": int(n if mid.hu("n2same", sd) < 0.5 else n - mid.hint(1, 40, "n2", sd))}
     else:
         c["rec_as"] = mid.hpick(REC_AS, "recas", sd) if n <= 100000 else mid.hpick([None, "view", "negstride", "readonly"], "recas", sd)
+    if n <= 100000 and mid.hu("recint", sd) < 0.3:
+        c["rec_int"] = mid.hpick(mid.INT_KINDS, "recintkind", sd)
+    c["dt_as"] = mid.hpick(mid.DT_KINDS, "dtas", sd)
     return c
 
 
@@ -431,7 +491,7 @@ def _object_call(ctx, asig, P, xi, form, set_by_property):
     if form[0]:
         kw["response_times"] = P
     elif set_by_property:
-        asig.response_times = P
+        ctx.lib(setattr, asig, "response_times", P)
     if form[1]:
         kw["xi"] = xi
     return ctx.lib(asig.response_series, **kw), (xi if form[1] else 0.05)
@@ -446,12 +506,17 @@ def _object_call(ctx, asig, P, xi, form, set_by_property):
                   "nigam_and_jennings_response with list / strided / read-only records; non-trivial = non-zero record and a peak above the floor",
              oracle="reference model on the whole output: one-step residual bound against the long-double propagators for every sample of "
                     "every row (undecided rows: exact long-double loop, statement tolerance, known-finding routing as 'exact'); third-series "
-                    "identity and T=0 row on every element; shapes, finiteness, record not mutated",
+                    "identity and T=0 row on every element; shapes, finiteness",
              exhaustive_note="one case per ladder length and entry point (not an exhaustive space: the lengths move with VERIF_SEED)",
              min_nontrivial=0.5, quick_shards=4)
 def mid_range(case, ctx):
-    n, dt, xi = case["n"], case["dt"], case["xi"]
+    n, xi = case["n"], case["xi"]
+    dt_arg, dt = mid.dt_argument(case["dt"], case.get("dt_as"))
     a = mid.record(case["kind"], n, case["seed"])
+    rec_arg = None
+    if case.get("rec_int"):
+        rec_arg, a = mid.int_record(a, case["rec_int"])
+        ctx.cls("rec=" + case["rec_int"])
     a_ref = a.copy()
     pc = _pcase(dt, case["ratios"], case["lead0"], case["container"])
     P, T, s = _periods(pc), _T64(pc), (1 if case["lead0"] else 0)
@@ -459,18 +524,19 @@ def mid_range(case, ctx):
             "T<6dt" if np.any(T / dt < 6) else None, "T>=1000dt" if np.any(T / dt >= 1000) else None)
     if case["entry"] != "object":
         fn = sdof.response_series if case["entry"] == "response_series" else sdof.nigam_and_jennings_response
-        arg = gen.as_container({"as": case.get("rec_as")}, a)
+        arg = rec_arg if rec_arg is not None else gen.as_container({"as": case.get("rec_as")}, a)
         ctx.cls("as=%s" % case.get("rec_as"))
-        res = ctx.lib(fn, arg, dt, P, xi)
+        res = ctx.lib(fn, arg, dt_arg, P, xi)
         ctx.nt(_check_whole(ctx, arg, a_ref, dt, T, s, xi, res, "%s, n=%d" % (case["entry"], n)))
         return
     form1 = case["form1"]
     ctx.cls("form=%d%d" % (form1[0], form1[1]))
     by_prop = case["set_by"] == "property"
+    obj_rec = rec_arg if rec_arg is not None else a
     if form1[0] or by_prop:
-        asig = ctx.lib(eqsig.AccSignal, a, dt)
+        asig = ctx.lib(eqsig.AccSignal, obj_rec, dt_arg)
     else:
-        asig = ctx.lib(eqsig.AccSignal, a, dt, response_times=P)
+        asig = ctx.lib(eqsig.AccSignal, obj_rec, dt_arg, response_times=P)
     res, xe = _object_call(ctx, asig, P, xi, form1, by_prop)
     nt = _check_whole(ctx, a, a_ref, dt, T, s, xe, res, "AccSignal.response_series, n=%d" % n)
     h = case.get("hist")
@@ -542,10 +608,17 @@ def _wide_check(case, ctx, differential):
         res = ctx.lib(fn, a, dt, P, xi)
     ctx.nt(_check_whole(ctx, a, a_ref, dt, T, s, xi, res, what))
     if s and differential:
-        # the rows of the non-zero periods do not depend on the leading 0 (exact: same operations on the same numbers)
+        # the rows of the non-zero periods do not depend on the leading 0 (rounding model of two equal runs: the closed forms may be
+        # evaluated over arrays of different length in the two calls)
         q = ctx.lib(sdof.response_series, a, dt, _periods(pc, False), xi)
+        S = mid.escales(a, dt, T, xi, np.asarray(q[0]), np.asarray(q[1]))
         for k, name in enumerate(("displacement", "velocity", "acceleration")):
-            ctx.equal(np.asarray(res[k])[1:], np.asarray(q[k]), "%s: %s rows with vs without the leading 0" % (what, name))
+            got, want = np.asarray(res[k])[1:], np.asarray(q[k])
+            ctx.shape(got, want.shape, "%s: %s rows" % (what, name))
+            d = np.max(np.abs(got - want), axis=1)
+            bad = ~(d <= mid.tol_n(n) * S[k] + TINY)
+            ctx.check(not np.any(bad), "%s: %s rows with vs without the leading 0 differ: row %s |diff|=%r tol=%r" % (
+                what, name, np.flatnonzero(bad)[:5].tolist(), d[bad][:3].tolist(), (mid.tol_n(n) * S[k])[bad][:3].tolist()))
 
 
 def _p_enum(tier, shard, nshards):
@@ -567,7 +640,7 @@ def _p_enum(tier, shard, nshards):
                   "tuple / float32 containers; records of 150-1500 (3000) samples; the three entry points in rotation; "
                   "non-trivial = non-zero record and a peak above the floor",
              oracle="reference model on the whole output as 'mid-range' (every sample of every row) + differential: rows with vs "
-                    "without the leading 0 are array_equal",
+                    "without the leading 0 agree to (1e-10 + 16 eps n) of the energy-consistent robust scale",
              exhaustive_note="one case per ladder count and leading-0 variant (the counts move with VERIF_SEED)",
              min_nontrivial=0.5, quick_shards=4)
 def mid_range_periods(case, ctx):
